@@ -176,12 +176,15 @@ func errValues(fn *ssa.Function, calls ...ssa.Value) map[ssa.Value]bool {
 			continue
 		}
 		if tup, ok := c.Type().(*types.Tuple); ok {
+			if tup.Len() == 0 || !isErrorType(tup.At(tup.Len()-1).Type()) {
+				continue
+			}
 			for _, ref := range *c.Referrers() {
 				if ex, ok := ref.(*ssa.Extract); ok && ex.Index == tup.Len()-1 {
 					vals[ex] = true
 				}
 			}
-		} else {
+		} else if isErrorType(c.Type()) {
 			vals[c] = true
 		}
 	}
